@@ -40,7 +40,7 @@ def run(ctx, rep):
                      'accepted ones evaluated under all 2^k assignments' % (len(cases), L))
     # (ii) random sentences with lexical variants
     pool = common.leaf_pool()
-    n_rand = ctx.n(400, 8000)
+    n_rand = ctx.n(400, 4000)
     for _ in range(n_rand):
         e = gen.gen_e0(ctx.rng, ctx.rng.choice([1, 2, 3, 4]), lambda r: r.choice(pool))
         toks = gen.render(e)
@@ -59,7 +59,7 @@ def run(ctx, rep):
     # (ii') sentences in which one operand is a quote-delimited token: such a token is a string,
     # never a check, so the rule is not a sentence whether or not parentheses are glued to it
     qpool = ["'a':'b'", '"x:y"', "'role:r0'", '"@"', "'k':'%(k0)s'", '""', "''"]
-    n_q = ctx.n(150, 3000)
+    n_q = ctx.n(150, 1000)
     for _ in range(n_q):
         e = gen.gen_e0(ctx.rng, ctx.rng.choice([1, 2, 3]), lambda r: r.choice(pool + qpool * 2))
         if not any(l in qpool for l in gen.leaves(e)):
@@ -148,6 +148,12 @@ def _list_rules(ctx, rep, enf):
     if not ctx.thorough:
         ctx.rng.shuffle(shapes)
         shapes = [[]] + shapes[:1500]
+    else:
+        # all shapes with <= 2 outer entries, 40 000 of the ~780 000 with three
+        small = [sh for sh in shapes if len(sh) <= 2]
+        big = [sh for sh in shapes if len(sh) == 3]
+        ctx.rng.shuffle(big)
+        shapes = small + big[:40000]
     rep.rules.append('%d list-of-lists shapes (<=3 outer x <=3 inner entries over 3 leaves, empties, bare strings) '
                      'under all 8 role subsets' % len(shapes))
     assigns = list(gen.subsets(['r0', 'r1', 'r2']))
